@@ -91,6 +91,19 @@ fn assumption_sets(rng: &mut Rng, n: u32, thorough: bool) -> Vec<Vec<i32>> {
     v
 }
 
+/// a satisfiable list of more than 20 literals (the counting strategy behind the paging changes at 21):
+/// some literals of a model, repeated
+fn long_assumptions(rng: &mut Rng, tt: &TT) -> Option<Vec<i32>> {
+    let ms = tt.models_with(&[]);
+    if ms.is_empty() { return None; }
+    let cfg = tt.config(*rng.pick(&ms));
+    let keep: Vec<i32> = cfg.iter().copied().filter(|_| rng.chance(0.5)).collect();
+    let keep = if keep.is_empty() { vec![cfg[0]] } else { keep };
+    let mut l = Vec::new();
+    while l.len() < 21 + rng.below(4) { l.push(*rng.pick(&keep)); }
+    Some(l)
+}
+
 pub fn c06(a: &Args) {
     let mut rng = Rng::new(a.seed);
     let mut out = Out::new(&a.out);
@@ -100,12 +113,15 @@ pub fn c06(a: &Args) {
         SpaceCfg { g1_max_n: 3, g1_rate: 0.012, random_d4: 110, random_c2d: 55, min_n: 2, max_n: 6 }
     };
     let mut r2 = rng.fork();
-    for_each_model(&cfg, &mut rng, |file, tt| {
+    let mut handle = |file: &GenFile, tt: &TT| {
         let Ok(probe) = load(file) else { out.fail("load-panic", &file.text(), "load", "panic", "model"); return };
         let root_or = matches!(probe.nodes.last().map(|n| &n.ntype), Some(ddnnife::NodeType::Or { .. }));
         out.count(if root_or { "root_or" } else { "root_and_or_leaf" }, 1);
         let export = export_nodes(&probe);
-        for al in assumption_sets(&mut r2, file.n, a.thorough()) {
+        let mut asets = assumption_sets(&mut r2, file.n, a.thorough());
+        if r2.chance(0.5) { if let Some(l) = long_assumptions(&mut r2, tt) { asets.push(l); } }
+        for al in asets {
+            if al.len() > 20 { out.count("assumption_lists_over_20_literals", 1); }
             let count = tt.count_with(&al) as usize;
             for (si, ks) in amount_sequences(&mut r2, count, a.thorough()).into_iter().enumerate() {
                 let via_stream = si % 3 == 2;
@@ -133,7 +149,19 @@ pub fn c06(a: &Args) {
                 if si == 0 { out.sample(format!("{} n={} A={:?} amounts={:?} -> page sizes {:?}", file.origin, file.n, al, ks, pages.iter().map(|p| p.as_ref().map(|p| p.len())).collect::<Vec<_>>())); }
             }
         }
-    });
+    };
+    for_each_model(&cfg, &mut rng, &mut handle);
+    // c2d inputs with true nodes (`A 0`) below and-nodes
+    {
+        let mut r3 = Rng::new(a.seed ^ 0x7a11);
+        for _ in 0..(if a.thorough() { 120 } else { 30 }) {
+            let n = 2 + r3.below(5) as u32;
+            let depth = 1 + r3.below(4) as u32;
+            let file = crate::gen::random_c2d(&mut r3, n, depth, true);
+            let tt = file.tt();
+            if tt.count() > 0 { handle(&file, &tt); }
+        }
+    }
     // corpus: no truth table; pages must be pairwise distinct models (sat) containing A until count(A) is reached
     for (path, tf) in corpus(false) {
         let p = path.clone();
